@@ -207,6 +207,9 @@ func suiteScheme(c *Ctx) {
 				}
 			}
 			cost := api.costs[li%len(api.costs)]
+			if api.name == "sha1" && cost[0] == 4294967295 && li > 3 && !c.Thorough() {
+				cost = api.costs[0] // one random-rounds request per quick run (≈ 20 000 HMAC rounds each)
+			}
 			if api.name == "sunmd5" && li%3 != 0 && !c.Thorough() {
 				continue
 			}
@@ -270,6 +273,7 @@ func suiteScheme(c *Ctx) {
 					c.Op(fmt.Sprintf("check %s %s %s 0", api.name, hx([]byte(h)), hx(q)), rq)
 				}
 				c.Count(api.name + ":nearmiss")
+				c.Direct++
 			}
 			// C02: every single-character substitution of every digest position never verifies (Go only: exhaustive)
 			digestStart := strings.LastIndex(h, "$") + 1
@@ -286,7 +290,7 @@ func suiteScheme(c *Ctx) {
 			} else if api.name == "nthash" {
 				alpha = "0123456789abcdef" + "ABCDEF./gz"
 			}
-			if li < 3 || c.Thorough() && li < 20 {
+			if li < 1 || c.Thorough() && li < 20 {
 				nsub := 0
 				for pos := digestStart; pos < len(h); pos++ {
 					for _, a := range []byte(alpha) {
@@ -304,6 +308,7 @@ func suiteScheme(c *Ctx) {
 								map[string]string{"suite": "scheme", "scheme": api.name, "hash": hx([]byte(t)), "password": hx(pw)})
 						}
 						nsub++
+						c.Direct++
 						if nsub%97 == 0 {
 							c.Op(fmt.Sprintf("check %s %s %s 0", api.name, hx([]byte(t)), hx(pw)), rt)
 						}
